@@ -9,7 +9,7 @@ LEVEL_TEXT = ("estimate_SIR_prob_size_from_dir_perc is evaluated on every digrap
               "ordered neighbour pairs with the documented arguments.")
 LEVEL_NOTE = "trusted: brute-force reach/scc in eonmc/ref.py (cross-checked with networkx for components); node bound 4 (5 undirected thorough)"
 RULE = "one case = one digraph / one percolation outcome / one rule behaviour; non-trivial = at least one (kept) edge"
-BOUNDS = {"quick": "all labelled digraphs on <=3 nodes (1+4+64), all 218 digraph shapes on 4; all graphs on <=4 nodes x p in {0,0.3,1}; rule tables on P2,P3,K3,K2+K1,S4 (rule answers as bool, numpy.bool_ and 0/1; xi/zeta as dict, defaultdict and a dict subclass that fills in values on first access; every rule consulted once per node/pair; the <=3-node shapes also as directed contact networks, with and without a reciprocated edge); graphs with self-loops; disjoint unions of 2-3 small digraph shapes up to 6 nodes and acyclic 4-5-node pieces next to a 2-cycle/triangle; disjoint unions of small trees/cycles up to 9 nodes for the undirected estimator",
+BOUNDS = {"quick": "all labelled digraphs on <=3 nodes (1+4+64), all 218 digraph shapes on 4; all graphs on <=4 nodes x p in {0,0.3,1}; rule tables on P2,P3,K3,K2+K1,S4 (rule answers as bool, numpy.bool_ and 0/1; xi/zeta as dict, defaultdict and a dict subclass that fills in values on first access; every rule consulted once per node/pair; the <=3-node shapes also as directed contact networks, with and without a reciprocated edge; three directed 3-node contact networks for the delay/duration tables); graphs with self-loops; disjoint unions of 2-3 small digraph shapes up to 6 nodes and acyclic 4-5-node pieces next to a 2-cycle/triangle; disjoint unions of small trees/cycles up to 9 nodes for the undirected estimator",
           "thorough": "all 4096 labelled digraphs on 4 nodes; undirected shapes on 5 nodes with <=7 edges; P4,C4"}
 ASSUMPTIONS = ["ties between equally large components may be broken either way (the set of admissible answers is checked)"]
 
